@@ -102,7 +102,16 @@ pub struct CoseKey {
 impl CoseKey {
     /// Re-order the contents of the key so that the contents will be emitted in one of the standard
     /// CBOR sorted orders.
-    pub fn canonicalize(&mut self, ordering: CborOrdering) {
+    pub fn canonicalize(&mut self, ordering: CborOrdering)«
+        ensures
+            *final(self) == (CoseKey { params: final(self).params, ..*old(self) }),
+            final(self).params@.len() == old(self).params@.len(),
+            final(self).params@.to_multiset() == old(self).params@.to_multiset(),
+            ordering is Lexicographic ==> forall |i: int, j: int| 0 <= i < j < final(self).params@.len() ==>
+                !(crate::common::label_cmp((#[trigger] final(self).params@[i]).0, (#[trigger] final(self).params@[j]).0) is Greater),
+            ordering is LengthFirstLexicographic ==> forall |i: int, j: int| 0 <= i < j < final(self).params@.len() ==>
+                !(crate::common::len_first_bytes_cmp(crate::vprelude::enc(crate::common::label_cv((#[trigger] final(self).params@[i]).0)), crate::vprelude::enc(crate::common::label_cv((#[trigger] final(self).params@[j]).0))) is Greater),»
+    {
         // The keys that are represented as named fields CBOR-encode as single bytes 0x01 - 0x05,
         // which sort before any other CBOR values (other than 0x00) in either sorting scheme:
         // - In length-first sorting, a single byte sorts before anything multi-byte and 1-5 sorts
@@ -111,9 +120,9 @@ impl CoseKey {
         //   start with a byte in the range 0x01 - 0x05 other than the values 1-5.
         // So we only need to sort the `params`.
         match ordering {
-            CborOrdering::Lexicographic => self.params.sort_by(|l, r| l.0.cmp(&r.0)),
+            CborOrdering::Lexicographic => self.params.sort_by(|l«: &(Label, Value)», r«: &(Label, Value)»|« -> (o: core::cmp::Ordering) ensures o == crate::common::label_cmp(l.0, r.0) {» l.0.cmp(&r.0)« }»),
             CborOrdering::LengthFirstLexicographic => {
-                self.params.sort_by(|l, r| l.0.cmp_canonical(&r.0))
+                self.params.sort_by(|l«: &(Label, Value)», r«: &(Label, Value)»|« -> (o: core::cmp::Ordering) ensures o == crate::common::len_first_bytes_cmp(crate::vprelude::enc(crate::common::label_cv(l.0)), crate::vprelude::enc(crate::common::label_cv(r.0))) {» l.0.cmp_canonical(&r.0)« }»)
             }
         }
     }
@@ -509,6 +518,40 @@ pub open spec fn key_mem_wf(k: CoseKey) -> bool {
     && (k.alg matches Some(a) ==> wf_regp(a))
     && (forall |i: int, j: int| 0 <= i < j < k.params@.len() ==> #[trigger] k.params@[i].0 != #[trigger] k.params@[j].0)
     && (forall |j: int| 0 <= j < k.params@.len() ==> !is_typed_key_label(#[trigger] k.params@[j].0))
+}
+// ---- C20: a canonicalised key encodes with strictly ascending map keys
+pub open spec fn key_sorted_lex(k: CoseKey) -> bool {
+    forall |i: int, j: int| 0 <= i < j < k.params@.len() ==> !(crate::common::label_cmp((#[trigger] k.params@[i]).0, (#[trigger] k.params@[j]).0) is Greater)
+}
+/// KNOWN FINDING (C20): an extra parameter with label 0 sorts before kty=1 but is emitted after it; excluded here
+pub open spec fn key_no_label0(k: CoseKey) -> bool { forall |j: int| 0 <= j < k.params@.len() ==> (#[trigger] k.params@[j]).0 != Label::Int(0) }
+pub proof fn lemma_typed_before_extra(t: i64, l: Label)
+    requires 1 <= t <= 5, !is_typed_key_label(l), l != Label::Int(0),
+    ensures crate::common::label_cmp(Label::Int(t), l) is Less,
+{}
+pub proof fn lemma_canonical_lex_ascending(k: CoseKey, m: Seq<(Value, Value)>)
+    requires key_mem_wf(k), key_no_label0(k), key_sorted_lex(k), key_enc_ok(k, m),
+    ensures
+        forall |i: int| 0 <= i < m.len() ==> (#[trigger] label_of(m[i].0)) is Some,
+        forall |i: int, j: int| 0 <= i < j < m.len() ==> crate::common::label_cmp((#[trigger] label_of(m[i].0))->0, (#[trigger] label_of(m[j].0))->0) is Less,
+{
+    lemma_enc_labels(k, m);
+    crate::common::lemma_label_cmp_laws();
+    let o_alg = key_enc_off_alg(k); let o_ops = key_enc_off_ops(k); let o_biv = key_enc_off_biv(k); let o_p = key_enc_off_p(k);
+    assert forall |i: int, j: int| 0 <= i < j < m.len() implies crate::common::label_cmp((#[trigger] label_of(m[i].0))->0, (#[trigger] label_of(m[j].0))->0) is Less by {
+        let li = label_of(m[i].0)->0; let lj = label_of(m[j].0)->0;
+        if i >= o_p {
+            assert(label_of(m[i].0) == Some(k.params@[i - o_p].0)); assert(label_of(m[j].0) == Some(k.params@[j - o_p].0));
+            assert(k.params@[i - o_p].0 != k.params@[j - o_p].0);
+        } else if j >= o_p {
+            assert(label_of(m[j].0) == Some(k.params@[j - o_p].0));
+            assert(is_typed_key_label(li));
+            let t = li->Int_0;
+            lemma_typed_before_extra(t, lj);
+        } else {
+            assert(is_typed_key_label(li) && is_typed_key_label(lj));
+        }
+    }
 }
 pub open spec fn key_view_eq(a: CoseKey, b: CoseKey) -> bool {
     a.kty == b.kty && a.key_id@ == b.key_id@ && a.alg == b.alg && a.key_ops@ == b.key_ops@ && a.base_iv@ == b.base_iv@ && a.params@ == b.params@
